@@ -205,7 +205,9 @@ EdAccept(e) ==
             /\ ((e.ret = e.EQ) <=> EEq(EdAbs(e, e.P), EdAbs(e, e.Q)))
       [] e.op = "ed_on_curve" ->
             /\ ValidTag(e.P) /\ ECanon(e, e.P) /\ FCanon(e, e.P.t) /\ Ok(e) /\ e.ret \in {0, 1}
-            /\ (e.ret = 1) <=> (ZVal(e, e.P) # <<>> /\ OnC(e, e.P) /\ (e.add = 3 => TOk(e, e.P)))
+            \* EXTND builds also test T Z = X Y, except on the neutral element (nothing is claimed for it then)
+            /\ IF e.add = 3 /\ ZVal(e, e.P) # <<>> /\ ~TOk(e, e.P) /\ EIsO(EdAbs(e, e.P)) THEN TRUE
+               ELSE (e.ret = 1) <=> (ZVal(e, e.P) # <<>> /\ OnC(e, e.P) /\ (e.add = 3 => TOk(e, e.P)))
       [] e.op = "ed_is_infty" ->
             RepOk(e, e.P, 2) /\ Ok(e) /\ e.ret \in {0, 1} /\ ((e.ret = 1) <=> EIsO(EdAbs(e, e.P)))
       [] e.op = "witness" ->          \* input qualification: the point has the order the generator claims
